@@ -1,7 +1,11 @@
 //! xsgh — runs the real xml_schema_generator (path dependency on /repo, rebuilt from the
 //! working tree) on generated inputs and writes Coq case files in which the model is
 //! evaluated on the same inputs.
+mod c03;
 mod c15;
+mod core;
+mod docs;
+mod xml;
 mod emit;
 mod json;
 mod rng;
@@ -52,9 +56,11 @@ fn main() {
         }
     }
     std::fs::create_dir_all(&out).unwrap();
+    std::panic::set_hook(Box::new(|_| {})); // panics of the library are outcomes, not noise
     let mut ctx = Ctx { prop: prop.clone(), thorough, seed, out: out.clone(), rng: rng::Rng::new(seed), meta: vec![], args: rest };
     match prop.as_str() {
         "C15" => c15::run(&mut ctx),
+        "C03" => c03::run(&mut ctx),
         _ => {
             eprintln!("unknown property or tool {}", prop);
             std::process::exit(2);
